@@ -35,6 +35,8 @@ pub struct Cfg {
     /// process creation does not scale in this VM (measured: best throughput at 3-4 tracers)
     pub simos_workers: usize,
     pub verif: PathBuf,
+    /// the repository under test
+    pub repo: PathBuf,
     /// multiplies run counts (selftests use < 1)
     pub scale: f64,
     /// do not write evidence / replay files into /verif (used by self-tests)
@@ -82,6 +84,7 @@ impl Cfg {
             workers,
             simos_workers,
             verif,
+            repo: std::env::var_os("VF_REPO").map(PathBuf::from).unwrap_or_else(|| PathBuf::from("/repo")),
             scale,
             dry: std::env::var_os("VF_DRY").is_some(),
         }
